@@ -167,32 +167,57 @@ func buildChain(key string, txs [][]int, ih int64) (*chainData, error) {
 // crashStore wraps the state store: Save and SaveABCIResponses are persistent effects.
 type crashStore struct {
 	sm.Store
-	tick func()
+	tick    func(writes int)
+	discard bool
 }
 
+// the effect's database writes as state/store.go makes them: Save = validators info (twice for the
+// genesis state), consensus params info, the state itself; SaveABCIResponses = the per-height entry
+// (unless discarded) and the last-responses record
 func (s crashStore) Save(st sm.State) error {
-	s.tick()
+	n := 3
+	if st.LastBlockHeight == 0 {
+		n = 4
+	}
+	s.tick(n)
 	return s.Store.Save(st)
 }
 
 func (s crashStore) SaveABCIResponses(h int64, r *tmstate.ABCIResponses) error {
-	s.tick()
+	n := 2
+	if s.discard {
+		n = 1
+	}
+	s.tick(n)
 	return s.Store.SaveABCIResponses(h, r)
 }
 
-// midDB lets a state-store effect start and kills it at its last database write (the SetSync of the
+// midDB lets a state-store effect start and kills it after a chosen number of its database writes, at the
+// latest before its last one (in the code as it is, the SetSync of the
 // state key / lastABCIResponseKey): the effect's earlier writes are on disk, its commit point is not.
 type midDB struct {
 	dbm.DB
 	p *pcase
 }
 
-func (d midDB) SetSync(k, v []byte) error {
+func (d midDB) write() {
 	if d.p.midArmed {
-		d.p.midArmed = false
-		panic(crashSig{})
+		if d.p.midLeft == 0 {
+			d.p.midArmed = false
+			panic(crashSig{})
+		}
+		d.p.midLeft--
 	}
+}
+
+func (d midDB) SetSync(k, v []byte) error {
+	d.write()
 	return d.DB.SetSync(k, v)
+}
+
+func (d midDB) Set(k, v []byte) error {
+	d.write()
+	return d.DB.Set(k, v)
 }
 
 type crashSig struct{}
@@ -212,8 +237,9 @@ type pcase struct {
 
 	armed    bool
 	k, count int
-	mid      bool
+	mid      int
 	midArmed bool
+	midLeft  int // database writes of the current effect still allowed before the crash
 	seen     int
 }
 
@@ -227,7 +253,7 @@ func newPCase(cd *chainData, discard bool, retainK int) *pcase {
 	sdb := midDB{DB: dbm.NewMemDB(), p: p}
 	// storage.discard_abci_responses: per-height responses are not kept, the last one always is
 	p.inner = sm.NewStore(sdb, sm.StoreOptions{DiscardABCIResponses: discard})
-	p.stateStore = crashStore{Store: p.inner, tick: p.tickStore}
+	p.stateStore = crashStore{Store: p.inner, tick: p.tickStore, discard: discard}
 	p.blockStore = store.NewBlockStore(dbm.NewMemDB())
 	return p
 }
@@ -242,17 +268,24 @@ func (p *pcase) tick() {
 
 // a state-store effect: with mid set, the crash point "after k effects" is realised inside the
 // (k+1)-th effect, just before its committing write
-func (p *pcase) tickStore() {
-	if p.armed && p.count == p.k && p.mid {
-		p.armed = false
-		p.midArmed = true
-		p.count++
-		return
+func (p *pcase) tickStore(writes int) {
+	if p.armed && p.count == p.k && p.mid > 0 {
+		left := p.mid
+		if left > writes-1 {
+			left = writes - 1
+		}
+		if left > 0 { // otherwise: before the first write = an ordinary crash point
+			p.armed = false
+			p.midArmed = true
+			p.midLeft = left
+			p.count++
+			return
+		}
 	}
 	p.tick()
 }
 
-func (p *pcase) arm(k int, mid bool) {
+func (p *pcase) arm(k int, mid int) {
 	p.count = 0
 	p.armed = k >= 0
 	p.k = k
@@ -386,7 +419,7 @@ func pipeRespHeight(p *pcase) string {
 	return "?"
 }
 
-func (p *pcase) start(k int, mid bool) string {
+func (p *pcase) start(k int, mid int) string {
 	if p.proxy != nil { // restart of a running node: clean stop first (nothing volatile is open)
 		p.close()
 		p.up = false
@@ -448,7 +481,7 @@ func (p *pcase) start(k int, mid bool) string {
 
 // commit = consensus/state.go finalizeCommit for the next height on the running node:
 // (ValidateBlock) ; SaveBlock unless stored ; WAL #ENDHEIGHT ; ApplyBlock
-func (p *pcase) commit(k int, mid bool) string {
+func (p *pcase) commit(k int, mid int) string {
 	if !p.up || !p.live {
 		return p.line("commit out=not-up")
 	}
